@@ -298,7 +298,7 @@ Definition x_first (C : xcfg) (X : xpart) (o : oval) : xpart :=
 Definition x_enter (C : xcfg) (s : st) (X : xpart) (a t : N) (o : oval) : xpart :=
   let c := xb C in
   let X0 := x_first C X o in
-  let '(s1, v, _, _) := entry_check c s a in
+  let '(s1, v, tr, _) := entry_check c s a in
   let X1 := x_check_rstack c s X0 in
   match shp c, v with
   | PG, V_IN | CYG, V_IN | CYG, V_OUT =>
@@ -318,6 +318,7 @@ Definition x_enter (C : xcfg) (s : st) (X : xpart) (a t : N) (o : oval) : xpart 
             let x := if read_of C a =? 0 then x0 else save_trigger_read C top o false x0 in
             push (x_watch C top (idx s1) o X1) x
       end
+  | PG, V_OUT => if state_trig tr then push X1 fx0 else X1   (* a NORECORD frame keeps the changed filter state *)
   | PG, _ => X1
   | CYG, V_RSTACK => push X1 fx0
   end.
